@@ -88,6 +88,16 @@ def save_frequency(h):
         h.unsupported('symbolic only')
     s, vals = _sentinel_solver(h)
     g = h.int('generations')
+    if h.choice('call', ['frequency-and-file', 'switched-off']) == 'switched-off':
+        # SetSaveFrequency(None): the documented switch-off -- no frequency AND no registered file (the forced dump at STOP
+        # depends on the file alone, so a file left registered would still be overwritten)
+        h.set_field(s, '_state', 'old-checkpoint.pkl')
+        h.set_field(s, '_saveiter', g)
+        h.call(h.getattr(s, 'SetSaveFrequency'), None)
+        h.check('switched-off-means-no-frequency-and-no-registered-file', 's._saveiter is None and s._state is None', s=s)
+        h.check('liveness-of-the-objective-unchanged', 's._live == live', s=s, live=h.st.heap[s]['_live'])
+        _frame(h, s, vals, ['_saveiter', '_state'])
+        return
     h.call(h.getattr(s, 'SetSaveFrequency'), g, 'restart.pkl')
     h.check('frequency-and-file-recorded', "s._saveiter == g and s._state == 'restart.pkl'", s=s, g=g)
     h.check('liveness-of-the-objective-unchanged', 's._live == live', s=s, live=h.st.heap[s]['_live'])
